@@ -5,7 +5,8 @@
 package parse
 
 //@ pred bufInv(z) := z != nil && len(z.buf) >= 1 && z.buf[len(z.buf)-1] == 0 &&
-//@     0 <= z.start && z.start <= len(z.buf)-1 && 0 <= z.pos && z.pos <= len(z.buf)-1
+//@     0 <= z.start && z.start <= len(z.buf)-1 && 0 <= z.pos && z.pos <= len(z.buf)-1 &&
+//@     (z.err != nil ==> len(z.buf) == 1)
 //@ pred smallInt(x) := -(1<<60) <= x && x <= (1<<60)
 //@ pred inputInv(z) := bufInv(z) && z.start <= z.pos
 
@@ -91,3 +92,11 @@ package parse
 
 //@ func NewInput
 //@   ensures[S]  result != nil && bufInv(result) && result.pos == 0 && result.start == 0
+
+// ---- errors
+// NewErrorLexer renders the position of the cursor. It reads l through l.Bytes(), whose capacity is clipped,
+// so the private Input built by Position copies the bytes instead of borrowing a terminator slot.
+//@ func NewErrorLexer
+//@   trusted
+//@   requires[S] bufInv(l)
+//@   ensures[S]  result != nil && sameBytes()
